@@ -16,7 +16,9 @@
 
    The semantic theorems (nodetype soundness, value preservation) are in C23_sound.v.
 
-   The tables [cc_rules], [cc_aliases], [cc_dispatch], [rm_rules], [rm_dispatch] say which handler of
+   [check] takes the variant of the analysis as parameters (cfn / cbs: which math functions / Bessel kinds
+   are typed complex; cfn_of false = pinned tree, cfn_of true = tree with fixes/C23-partial-mathfn.diff).
+   The tables [cc_rules fixp], [cc_aliases fixm], [cc_dispatch fixm], [rm_rules], [rm_dispatch] say which handler of
    the Python classes each case of the model implements; coq/Gen/C23_rules.v (regenerated from /repo on
    every run with `ast` and from the live MultiFunction dispatch tables) must prove them equal to
    what the source says. *)
